@@ -1750,6 +1750,8 @@ def _unparenthesize_grouping(self: fst.FST, shared: bool | None = True, *, star_
         else:
             self._put_src(None, pln, pcol, ln, col, False)
 
+        self._touch()  # a parenthesis replaced by a space offsets nothing so nothing flushed the cached pars() of self
+
     return True
 
 
